@@ -217,7 +217,10 @@ where
                 next: [EdgeIndex::end(); 2],
             });
             node_pos = hole_pos + 1;
-            debug_assert_eq!(nodes.len(), node_pos);
+            // fewer compact nodes than the hole positions require
+            if nodes.len() != node_pos {
+                return Err(invalid_hole_err(hole_pos));
+            }
         }
         nodes.extend(compact_nodes);
 
